@@ -93,8 +93,14 @@ def endByteOffset (t : Tree) (off : Nat) : Nat :=
   if t.data.symbol = symEnd then uint32Max else off + t.totalBytes
 
 /-- The end of the span tested against the included-range differences. -/
-def diffSpanEnd (t : Tree) (off : Nat) : Nat :=
-  if t.data.symbol = symEnd then endByteOffset t off else endByteOffset t off + t.data.lookahead
+def diffSpanEnd (t : Tree) (off : Nat) (oldEnd : Option Nat := none) : Nat :=
+  if t.data.symbol = symEnd then endByteOffset t off
+  else match oldEnd with
+    -- proposed repair fixes/C01-eof-lookahead-range-added.diff (`oldEnd` = total bytes of the old
+    -- tree when the source under test contains it): a node whose look-ahead reached the end of the
+    -- old input is treated like the EOF node
+    | some e => if endByteOffset t off + t.data.lookahead > e then uint32Max else endByteOffset t off + t.data.lookahead
+    | none => endByteOffset t off + t.data.lookahead
 
 /-- The extra test of the proposed repair `fixes/C01-column-token-range-change.diff` (absent from
 the pinned tree; `enabled` says whether the source under test contains it): a column-dependent
@@ -109,7 +115,7 @@ def lineDiffOf (enabled : Bool) (allDiffs : List (Nat × Nat)) (t : Tree) (off c
 offset `off` when the parser is at `pos` in parse state `state`.  `lineDiff` is the outcome of
 `lineDiffOf` (always `false` for the pinned tree). -/
 def reuseGate (L : Lang) (diffs : List (Nat × Nat)) (t : Tree) (off pos state : Nat) (extEq : Bool)
-    (lineDiff : Bool := false) : Verdict :=
+    (lineDiff : Bool := false) (oldEnd : Option Nat := none) : Verdict :=
   if off > pos then .before
   else if off < pos then .past
   else if !extEq then .extState
@@ -117,7 +123,7 @@ def reuseGate (L : Lang) (diffs : List (Nat × Nat)) (t : Tree) (off pos state :
   else if t.data.symbol = symError then .isError
   else if t.data.isMissing then .isMissing
   else if t.data.fragileLeft || t.data.fragileRight then .isFragile
-  else if rangeIntersects diffs off (diffSpanEnd t off) then .rangeDiff
+  else if rangeIntersects diffs off (diffSpanEnd t off oldEnd) then .rangeDiff
   else if lineDiff then .rangeDiff
   else if !canReuseFirstLeaf L state t (L.tableEntry state (leafSymbol t)) then .firstLeaf
   else .reuse
@@ -126,12 +132,12 @@ def reuseGate (L : Lang) (diffs : List (Nat × Nat)) (t : Tree) (off pos state :
 order of the C code.  The parser logs the first; a harmless reordering of the (independent) tests
 would log another member of this list — the candidate is refused and the iterator moves the same
 way for every one of them, so the replay accepts any member (and counts a non-first one). -/
-def refusalReasons (diffs : List (Nat × Nat)) (t : Tree) (off : Nat) (lineDiff : Bool) : List Verdict :=
+def refusalReasons (diffs : List (Nat × Nat)) (t : Tree) (off : Nat) (lineDiff : Bool) (oldEnd : Option Nat := none) : List Verdict :=
   (if t.data.hasChanges then [Verdict.hasChanges] else []) ++
   (if t.data.symbol = symError then [Verdict.isError] else []) ++
   (if t.data.isMissing then [Verdict.isMissing] else []) ++
   (if t.data.fragileLeft || t.data.fragileRight then [Verdict.isFragile] else []) ++
-  (if rangeIntersects diffs off (diffSpanEnd t off) || lineDiff then [Verdict.rangeDiff] else [])
+  (if rangeIntersects diffs off (diffSpanEnd t off oldEnd) || lineDiff then [Verdict.rangeDiff] else [])
 
 /-! ## The old-tree iterator (`reusable_node.h`) -/
 
